@@ -613,6 +613,91 @@ func init() {
 		}
 		def("influxParseFieldFloatBranchSrc", floatBranch)
 
+		// --- round 12: the line parser as far as it touches the RowBuilder, and the request loop of influx.Parse
+		pl := FindFunc(ip, "", "parseInfluxLineWithEnriched")
+		if pl == nil {
+			return "", fmt.Errorf("parseInfluxLineWithEnriched not found")
+		}
+		var plCalls []string
+		for _, c := range CallSeq(pl) {
+			switch c {
+			case "builder.AddNameSpace", "scanMetricName", "builder.AddMetricName", "scanTagLine", "parseTags", "builder.AddTag",
+				"scanFieldLine", "parseFields", "builder.AddSimpleField", "parseTimestamp", "builder.AddTimestamp", "builder.Reset":
+				plCalls = append(plCalls, c)
+			}
+		}
+		sb.WriteString("/-- parseInfluxLineWithEnriched: scanning steps and RowBuilder calls in source order -/\ndef influxParseLineCalls : List String := " + LeanStrList(plCalls) + "\n\n")
+		sb.WriteString("/-- parseInfluxLineWithEnriched: (guard, returned value) of every early return, in source order -/\ndef influxParseLineRules : List (String × String) := " + leanPairs(c16Rules(fsetI, pl)) + "\n\n")
+		fsetP, ipf, err := ParseFile(repo, "ingestion/influx/influx.go")
+		if err != nil {
+			return "", err
+		}
+		pf := FindFunc(ipf, "", "Parse")
+		if pf == nil {
+			return "", fmt.Errorf("influx.Parse not found")
+		}
+		var loop *ast.ForStmt
+		ast.Inspect(pf.Body, func(n ast.Node) bool {
+			if fs, ok := n.(*ast.ForStmt); ok && loop == nil && fs.Cond != nil && strings.Contains(c16Src(fsetP, fs.Cond), "HasNext") {
+				loop = fs
+			}
+			return true
+		})
+		if loop == nil {
+			return "", fmt.Errorf("influx.Parse: the loop over the lines was not found")
+		}
+		// Where does rowBuilder.Reset() stand? At the top = a top-level statement of the loop body before any
+		// statement that can `continue` or calls the line parser. Anywhere else (or behind a condition): not at
+		// the top. No Reset in the loop at all: extraction failure.
+		resetAtTop, resetSeen, blocked := false, false, false
+		var loopStmts []string
+		for _, st := range loop.Body.List {
+			txt := c16Src(fsetP, st)
+			isReset := false
+			if es, ok := st.(*ast.ExprStmt); ok {
+				if ce, ok := es.X.(*ast.CallExpr); ok && exprName(ce.Fun) == "rowBuilder.Reset" {
+					isReset = true
+				}
+			}
+			switch {
+			case isReset:
+				loopStmts = append(loopStmts, "rowBuilder.Reset()")
+				if !blocked {
+					resetAtTop = true
+				}
+				resetSeen = true
+			case strings.Contains(txt, "continue") || strings.Contains(txt, "parseInfluxLine") || strings.Contains(txt, "rowBuilder.") || strings.Contains(txt, "return"):
+				blocked = true
+				switch {
+				case strings.Contains(txt, "parseInfluxLine"):
+					loopStmts = append(loopStmts, "parse-line-or-continue")
+				case strings.Contains(txt, "rowBuilder.AddTag"):
+					loopStmts = append(loopStmts, "enriched-tags-or-fail")
+				case strings.Contains(txt, "rowBuilder.Build"):
+					loopStmts = append(loopStmts, "append-built-row-or-continue")
+				case strings.Contains(txt, "HasPrefix"):
+					loopStmts = append(loopStmts, "comment-continue")
+				case strings.Contains(txt, "rowBuilder.Reset"):
+					loopStmts = append(loopStmts, "conditional-reset")
+					resetSeen = true
+				}
+			}
+		}
+		if !resetSeen {
+			found := false
+			ast.Inspect(loop.Body, func(n ast.Node) bool {
+				if ce, ok := n.(*ast.CallExpr); ok && exprName(ce.Fun) == "rowBuilder.Reset" {
+					found = true
+				}
+				return true
+			})
+			if !found {
+				return "", fmt.Errorf("influx.Parse: no rowBuilder.Reset() in the loop over the lines")
+			}
+		}
+		fmt.Fprintf(&sb, "/-- influx.Parse: `rowBuilder.Reset()` is a statement of the loop body that runs before anything that can `continue`, fail or touch the builder -/\ndef influxResetAtLoopTop : Bool := %v\n\n", resetAtTop)
+		sb.WriteString("/-- influx.Parse: the statements of the loop body that touch the builder or leave the iteration, in source order -/\ndef influxParseLoopSteps : List String := " + LeanStrList(loopStmts) + "\n\n")
+
 		// --- the flat path, branch for branch: rebuild (full body + its rejection rules) and lindb/common's RowBuilder
 		s, err = c16BodySrc(fsetF, FindFunc(fdc, "BrokerRowFlatDecoder", "rebuild"))
 		if err != nil {
